@@ -671,3 +671,16 @@ T('pkgL_t_parsed_value_renamed_through', ['C20'],
   (FL, "                 'parsed_error': parsed_error,\n", "                 'error_info': parsed_error,\n"),
   (FL, "def get_flaw_info(tb_str, parsed_error,", "def get_flaw_info(tb_str, error_info,"),
   (FL, "            'parsed_err': parsed_error,\n", "            'parsed_err': error_info,\n"))
+
+
+# ------------------------------------------------------------------ R20.h (2): the hook that reaches the restart loop is the builder of the failsafe
+B('pkgL_b_restart_loop_started_without_hook', ['C20'], 'R20.h',
+  (SV, "        sys.exit(restart_with_reloader(error_func=error_func))\n", "        sys.exit(restart_with_reloader())\n"))
+B('pkgL_b_reloader_started_without_hook', ['C20'], 'R20.h',
+  (SV, "        run_with_reloader(serve_forever, extra_files, reloader_interval,\n                          error_func=serve_error_app)\n",
+       "        run_with_reloader(serve_forever, extra_files, reloader_interval)\n"))
+B('pkgL_b_hook_is_the_real_server', ['C20'], 'R20.h',
+  (SV, "                          error_func=serve_error_app)\n", "                          error_func=serve_forever)\n"))
+T('pkgL_t_hook_passed_positionally_under_other_name', ['C20'],
+  (SV, "        sys.exit(restart_with_reloader(error_func=error_func))\n", "        on_error = error_func\n        sys.exit(restart_with_reloader(on_error))\n"),
+  (SV, "                          error_func=serve_error_app)\n", "                          serve_error_app)\n"))
